@@ -909,6 +909,11 @@ class Executor:
             if rx.search(callee):
                 self.stats["models_used"][h.__name__] = self.stats["models_used"].get(h.__name__, 0) + 1
                 return h(self, st, callee, args, dest_ty, frame, depth)
+        # read-only std observers on containers/strings the lemma did not model: arbitrary answer (over-approximation)
+        if STD_OBSERVER.search(callee) and not any(isinstance(a, Ref) and a.ty.startswith("&mut") for a in args):
+            self.stats.setdefault("opaque_used", {})
+            self.stats["opaque_used"]["<std observer>"] = self.stats["opaque_used"].get("<std observer>", 0) + 1
+            return [(st, Outcome("ret", self.opaque_result(st, callee, args, dest_ty)))]
         fn = self.prog.resolve(callee, args, frame.fn)
         if fn is not None:
             return self.exec_fn(st, fn, args, depth + 1)
@@ -1014,6 +1019,8 @@ class Executor:
 
 
 FMOD = z3.Function("fmod", F64, F64, F64)
+STD_OBSERVER = re.compile(r"^(std::|core::|alloc::)?(vec::)?(Vec|String|BTreeMap|HashMap|VecDeque|Option|str)(::<.*>)?::(is_empty|len|is_none|is_some|contains|contains_key|first|last|as_str|as_bytes|capacity)$"
+                          r"|<impl (str|\[.*\])>::(is_empty|len|contains|starts_with|ends_with)(::<.*>)?$")
 
 
 # ----------------------------------------------------------------------------- program index
